@@ -3,6 +3,7 @@ package checks
 import (
 	"fmt"
 	"sort"
+	"strings"
 
 	"verif/ref"
 	"verif/spaces"
@@ -27,6 +28,7 @@ var c07Plan = []planEntry{
 	{spaces.L, 3, 4},
 	{spaces.XPhrase, 4, 5},
 	{spaces.XInfo, 4, 5},
+	{spaces.XAuto, 4, 5},
 }
 
 func hasRawNodes(blocks []*cm.RootBlock) bool {
@@ -55,6 +57,42 @@ func init() {
 		SelfTest: ref.HTMLCheckSelfTest,
 		Run: func(c *Ctx) {
 			c.forPlan(c07Plan, c07Driver)
+			// Destinations: every string over the URI alphabet (percent signs, digits,
+			// quotes, ampersands, non-ASCII) as destination of an inline link, an
+			// image, a reference definition and an autolink: the attribute value the
+			// renderer writes for it must stay inside its quotes.
+			n := c.Pick(4, 5)
+			c.Explore("destinations", fmt.Sprintf("every string of <=%d tokens over %q as destination of an inline link, an image, a reference definition and (with a scheme) an autolink", n, spDest.Tokens), -1, n, func(x *X) {
+				d := string(x.Tokens(spDest, n))
+				if d == "" || strings.ContainsAny(d, "<>") {
+					return
+				}
+				var doc string
+				switch x.ChooseFree(4) {
+				case 0:
+					if strings.ContainsAny(d, " ()") {
+						doc = "[a](<" + d + ">)\n"
+					} else {
+						doc = "[a](" + d + ")\n"
+					}
+				case 1:
+					if strings.Contains(d, " ") {
+						return
+					}
+					doc = "![a](<" + d + "> \"t\")\n"
+				case 2:
+					if strings.Contains(d, " ") {
+						return
+					}
+					doc = "[a]\n\n[a]: " + d + "\n"
+				default:
+					if strings.Contains(d, " ") {
+						return
+					}
+					doc = "<a:" + d + ">\n"
+				}
+				c07Driver(x, []byte(doc))
+			})
 		},
 	})
 }
